@@ -31,6 +31,12 @@ Totals: %d changes kept, every one caught in the quick tier - by the check of th
 with one exception: `C07-msp-sequence-len-eq-k` changes `msp_sequence`, which is C08's observation point, and is caught
 there (C08:M3) while the C07 check, which observes `Scanner::scan` / `simple_scan`, rightly stays quiet.
 %d of them were caught only after the check was strengthened (recorded in the last column).
+
+**Regression at the end of the round.** The generators kept changing while the rounds went on, so a change caught in
+round 3 need not be caught by the machinery as committed. At the end every one of the changes that had needed
+strengthening (30) and a random selection of the others (45) - 75 of the 139 - were applied once more in scratch
+worktrees and the final quick check of their property was run against them (`seeded_regression_final.txt`): 75 of 75
+reported a violation. (The remaining 64 were last checked in the round in which they were written.)
 """ % (len(rows), sum(1 for d in glob.glob(os.path.join(root, "seeded", "*")) if json.load(open(os.path.join(d, "meta.json"))).get("missed_before_strengthening")))
 rj = os.path.join(root, "seeded_rejected", "README.json")
 if os.path.exists(rj):
